@@ -167,7 +167,8 @@ def _batches():
     """one Hypothesis example = one generated argument pair run on BATCH grid cells (Hypothesis
     costs more per example than a case does; every cell still is its own case / replay file)"""
     n = len(_grid())
-    return st.tuples(st.integers(0, n - 1),
+    # sampled_from is uniform; integers(0, n - 1) returns 0 for every fifth example
+    return st.tuples(st.sampled_from(range(n)),
                      st.one_of(st.integers(0, 1000), st.integers(0, 2 ** 62)),
                      _TEXT).map(lambda t: {"j": t[0], "a": t[1], "s": t[2]})
 
